@@ -3,7 +3,7 @@ from pyvc.native import *      # noqa: F401,F403
 
 CONTEXT_FILE = 'frappy/protocol/dispatcher.py'
 SOURCES = ['frappy/protocol/dispatcher.py', 'frappy/errors.py']
-UFS = {'module_of': (['val', 'val'], 'val', 'Module')}
+UFS = {'module_of': (['val', 'val'], 'val', 'Module'), 'GOT': (['val', 'val'], 'bool')}
 GHOSTS = ['sent']
 ASSUMPTIONS = [
     'A3/A6/A7 as for the other properties',
@@ -96,6 +96,19 @@ def InnerOf(subs, e):
     return subs[e] if e in subs else set()
 
 
+def GotView(s1, s0, conn):
+    return forall_obj(lambda c: GOT(s1, c) == (GOT(s0, c) or same_object(c, conn)))
+
+
+def DeliveredToListeners(d, msg, s0, s1):
+    """exactly the listeners of the event were sent something by this call"""
+    return forall_obj(lambda c: GOT(s1, c) == (GOT(s0, c) or Listeners(d, msg, c)))
+
+
+def DeliveredSoFar(done, s0, s1):
+    return forall_obj(lambda c: GOT(s1, c) == (GOT(s0, c) or c in done))
+
+
 def Listeners(d, msg, c):
     """a connection gets an event iff it subscribed the parameter, the module, or everything"""
     return (Subscribed(d, msg[1], c) or Subscribed(d, msg[1].split(':', 1)[0], c) or c in d._active_connections)
@@ -109,7 +122,10 @@ def DeliveredTo(d, msg, new):
 
 CONTRACTS = [
     dict(key='Conn.send_reply', file=None, func=None, signature='self, data', serves=[], trusted=True, requires=[],
-         ghost_modifies=['sent'], ensures={'logged': 'sent == old(sent) + [(self, data)]'}, raises='never'),
+         ghost_modifies=['sent'],
+         ensures={'logged': 'sent == old(sent) + [(self, data)]',
+                  # GOT(log, c): connection c was sent something in this log (defining equation of the view, per append)
+                  'view': 'GotView(sent, old(sent), self)'}, raises='never'),
     dict(key='Dispatcher.subscribe', file='frappy/protocol/dispatcher.py', func='Dispatcher.subscribe', serves=['C08'],
          self_type='Dispatcher', params={'conn': 'Conn', 'eventname': 'str'}, requires=['inv(self)'], modifies=['_subscriptions'],
          ensures={'inv': 'inv(self)',
@@ -121,7 +137,8 @@ CONTRACTS = [
          self_type='Dispatcher', params={'msg': 'tuple', 'reallyall': 'bool'},
          requires=['inv(self)', 'len(msg) == 3 and is_str(msg[1])', 'reallyall is False'],
          modifies=[], ghost_modifies=['sent'],
-         ensures={'table_untouched': "unchanged('_subscriptions') and unchanged('_active_connections')"},
+         ensures={'table_untouched': "unchanged('_subscriptions') and unchanged('_active_connections')",
+                  'exactly_the_listeners': 'DeliveredToListeners(self, msg, old(sent), sent)'},
          bounded_ensures={'table_same': 'self._subscriptions == old(self._subscriptions) and self._active_connections == old(self._active_connections)',
                           'delivered': 'DeliveredTo(self, msg, sent[len(old(sent)):])'},
          raises='never'),
@@ -164,7 +181,8 @@ CONTRACTS = [
 LOOPS = {
     'Dispatcher.handle_activate#0': dict(header='modules', ghost=['sent'], invariant={'inv': 'inv(self)'}),
     'Dispatcher.handle_activate#1': dict(header='moduleobj.accessibles.values()', ghost=['sent'], invariant={'inv': 'inv(self)'}),
-    'Dispatcher.broadcast_event#0': dict(header='listeners', ghost=['sent'], invariant={'inv': 'inv(self)'}),
+    'Dispatcher.broadcast_event#0': dict(header='listeners', ghost=['sent'],
+        invariant={'inv': 'inv(self)', 'sofar': 'DeliveredSoFar(done__, old(sent), sent)'}),
     'Dispatcher.unsubscribe#0': dict(header='self._subscriptions.items()', modifies=['_subscriptions'],
         invariant={'inv': 'inv(self)',
                    'done': 'DonePrefix(self._subscriptions, old(self._subscriptions), done__, eventname, conn)',
